@@ -935,6 +935,8 @@ def judge_np(r):
     if r.get("flags"):
         return None, "flags %s %s" % (r["flags"], r.get("stderr_tail", "")[-200:]), None
     seen = r.get("seen") or []
+    if r.get("mode") in ("same-array-contexts", "delete-race") and r.get("workload"):
+        seen = [{"filename": "-", "exists": True}]
     if r.get("mode") == "two-calls" and (r.get("workload") or {}).get("files_b"):
         seen = [{"filename": "-", "exists": True}]
     if r.get("mode") == "terminate-pending" and not seen and (r.get("workload") or {}).get("before"):
@@ -943,6 +945,38 @@ def judge_np(r):
         return None, "memmapping did not engage", None
     if not all(x["exists"] for x in seen):
         return "a worker received a memmap whose backing file was already deleted: %s" % [x for x in seen if not x["exists"]][:1], None, None
+    if r["mode"] == "same-array-contexts":
+        w = r.get("workload") or {}
+        if not w.get("synced") or not w.get("contexts"):
+            return None, "tracker not synchronised / no context ran", None
+        for c in w["contexts"]:
+            if not (c["same_file"] and c["in_folder"]):
+                return None, "set-up: the array was not dumped to one file of the context's folder: %s" % c, None
+            # model: per context the first send is ERegFile x2 (per-child reference + the owner's extra one), every
+            # further send ERegFile x1; the owner's reference is released only by the end-of-call clean-up
+            if c["registers_first_send"] != 2 or c["registers_total"] != 3:
+                return ("context %s: the reducer sent %d register(file) for the first task and %d in total for two tasks "
+                        "(model: 2 and 3 -- one per task plus one for the owning call of EVERY context)"
+                        % (c["ctx"], c["registers_first_send"], c["registers_total"])), None, None
+            if not c["alive_after_first_release"] or not c["alive_before_end"]:
+                return ("context %s: the memmap file was deleted when a worker released it although the owning call has "
+                        "not ended (alive after the first release: %s, before the end: %s)"
+                        % (c["ctx"], c["alive_after_first_release"], c["alive_before_end"])), None, None
+            if not c["folder_gone_after_end"]:
+                # depends on the tracker answering within delete_folder's retry window: decided by the delete-race mode
+                return None, "context %s: folder not deleted by the end-of-call clean-up (timing; see delete-race)" % c["ctx"], None
+        return None, None, None
+    if r["mode"] == "delete-race":
+        w = r.get("workload") or {}
+        if "direct_folder_left" not in w:
+            return None, "no output", None
+        if w["direct_raised"] or w["direct_folder_left"]:
+            return ("delete_folder(allow_non_empty=False): the folder held a file at the first listing and was empty right "
+                    "after it, yet it was not deleted within the retry window (%s listings, raised %s)"
+                    % (w.get("direct_listings"), w["direct_raised"])), None, None
+        if w.get("real_folder_left"):
+            return None, "real path: folder left after the end-of-call clean-up although the direct drive passed (timing)", None
+        return None, None, None
     if r["mode"] == "two-calls":
         w = r.get("workload") or {}
         if w.get("setup"):
@@ -1155,12 +1189,13 @@ def run(ctx):
 
     lap('signals')
     # Parallel + numpy life-cycle (sampled; python3-vt)
-    modes = (["normal", "kill", "kill-rel", "terminate-pending", "two-calls", "kill-werror"] if quick
-             else ["normal"] * 3 + ["kill"] * 4 + ["kill-rel"] * 3 + ["terminate-pending"] * 3 + ["two-calls"] * 3 + ["kill-werror"])
+    modes = (["normal", "kill", "kill-rel", "terminate-pending", "two-calls", "same-array-contexts", "delete-race", "kill-werror"]
+             if quick else ["normal"] * 3 + ["kill"] * 4 + ["kill-rel"] * 3 + ["terminate-pending"] * 3 + ["two-calls"] * 3 +
+             ["same-array-contexts"] * 2 + ["delete-race"] * 2 + ["kill-werror"])
     if hang:
         ctx.note("sampled stages skipped after time-outs in the %s" % hang[0])
         modes = []
-    with cf.ThreadPoolExecutor(max(1, min(6, len(modes)))) as ex:
+    with cf.ThreadPoolExecutor(max(1, min(8, len(modes)))) as ex:
         nres = list(ex.map(lambda m: run_np(ctx, m), modes))
     np_inconclusive, np_ok, np_crashed = 0, 0, []
     np_retries = 0
